@@ -853,5 +853,5 @@ CLAUSES = [
     Clause("coherent_all_short_histories", c_enum, kind="enum", size=enum_size, case_at=enum_case_at,
            run_range=enum_run_range,
            doc="exhaustive over the palette alphabet; the case is the op-index list (+ op names as a guard)"),
-    Clause("coherent_random_histories", c_random, _histories(), 6000, 96000),
+    Clause("coherent_random_histories", c_random, _histories(), 4000, 96000),
 ]
